@@ -247,12 +247,12 @@ theorem digitVal_nondigit (base b : Nat) (hb : base ≤ 10) (h : isDigit b = fal
   unfold digitVal
   by_cases h1 : 97 ≤ b ∧ b ≤ 102
   · have : ¬(48 ≤ b ∧ b ≤ 57) := by omega
-    simp only [this, if_false, h1, if_true]
+    simp only [this, if_false, h1]
     have : ¬ (b - 87 < base) := by omega
     simp [this]
   · by_cases h2 : 65 ≤ b ∧ b ≤ 70
     · have : ¬(48 ≤ b ∧ b ≤ 57) := by omega
-      simp only [this, if_false, h1, h2, if_true]
+      simp only [this, if_false, h1, h2]
       have : ¬ (b - 55 < base) := by omega
       simp [this]
     · have : ¬(48 ≤ b ∧ b ≤ 57) := by omega
